@@ -108,6 +108,14 @@ class MatchAPI(Family):
                             continue
                         out.append({"N": N, "grid": [str(g) for g in grid], "M": M, "mode": mode, "trule": tr,
                                     "rrule": rr, "alpha": str(alpha)})
+        # explicit fixed points matched to a strict SUBSET of the reference points (two fixed points, three symbolic reference
+        # positions: whichever two are closest - first/second, first/third or second/third - bound the only interval)
+        for N in Ns[:2]:
+            grid = gap_grids(N, tier)[-1]
+            for mode in ("positions", "indices"):
+                for k, (tr, rr) in enumerate(rules):
+                    out.append({"N": N, "grid": [str(g) for g in grid], "M": 3, "mode": mode, "trule": tr, "rrule": rr,
+                                "alpha": str(alphas[k % len(alphas)]), "nfix": 2})
         # typed inputs: the processed values given as integers (ndarray of an integer dtype / list of Python ints);
         # the reference stays symbolic, so the required displacement is an arbitrary real
         grid = gap_grids(5, tier)[-1]
@@ -118,7 +126,7 @@ class MatchAPI(Family):
                                 "alpha": "2" if mode == "closest" else "1", "ytype": ytype})
         return out
 
-    def run(self, ctx, inst, N, grid, M, mode, trule, rrule, alpha, ytype=None):
+    def run(self, ctx, inst, N, grid, M, mode, trule, rrule, alpha, ytype=None, nfix=None):
         from traffic_weaver import match
         alpha_f = Fraction(alpha)
         alpha_arg = (ctx.const(alpha_f) if ctx.symbolic else float(alpha_f))
@@ -148,7 +156,7 @@ class MatchAPI(Family):
             ps = ctx.reals("p", M)
             increasing(ctx, ps)
             P = [ctx.exact(v) for v in ps]
-            F = [0, N - 1] if M == 2 else [0, (N - 1) // 2, N - 1]
+            F = [0, N - 1] if (M == 2 or nfix == 2) else [0, (N - 1) // 2, N - 1]
             R = [o_closest(P, X[f]) for f in F]
             # the caller may list explicit fixed points in any order (they are documented as a set)
             order = list(reversed(F)) if (N + M + len(trule)) % 2 else ([F[-1]] + F[:-1])
@@ -233,9 +241,16 @@ class MatchLong(Family):
                             continue
                         out.append({"N": N, "grid": [str(g) for g in grid], "pos": [str(p) for p in pos], "mode": mode,
                                     "trule": tr, "rrule": rr, "alpha": alphas[i % 4]})
+                        if mode.endswith("-subset"):
+                            # the explicit fixed points need not reach the first / last reference point
+                            for keep in (("drop-last", "drop-first") if tier == "quick" else ("drop-last", "drop-first", "drop-both")):
+                                i += 1
+                                tr, rr = rules[i % 4]
+                                out.append({"N": N, "grid": [str(g) for g in grid], "pos": [str(p) for p in pos], "mode": mode,
+                                            "trule": tr, "rrule": rr, "alpha": alphas[i % 4], "keep": keep})
         return out
 
-    def run(self, ctx, inst, N, grid, pos, mode, trule, rrule, alpha):
+    def run(self, ctx, inst, N, grid, pos, mode, trule, rrule, alpha, keep="ends"):
         from traffic_weaver import match
         alpha_f = Fraction(alpha)
         alpha_arg = ctx.const(alpha_f) if ctx.symbolic else float(alpha_f)
@@ -253,10 +268,12 @@ class MatchLong(Family):
             # explicit fixed points: a strict subset of the samples closest to the reference points, so that more
             # than one reference gap lies between two fixed points
             allF = [o_closest(gx, q) for q in gp]
-            keep = [0, M // 2, M - 1]
+            keep = {"ends": [0, M // 2, M - 1], "drop-last": [0, 1, M - 2], "drop-first": [1, M - 2, M - 1],
+                    "drop-both": [1, M - 2]}[keep]
+            keep = sorted(set(keep))
             F = [allF[k] for k in keep]
             R = [o_closest(gp, gx[f]) for f in F]
-            order = [F[1], F[2], F[0]] if (N + len(rrule)) % 2 else list(reversed(F))
+            order = (F[1:] + F[:1]) if (N + len(rrule)) % 2 else list(reversed(F))
             if mode == "positions-subset":
                 kw["fixed_points_in_x"] = [x[f] for f in order]
             else:
